@@ -269,31 +269,71 @@ def r2_letters(chk, F):
     eng, D = ctx(F)
     fn = F.find1(self_ty="Format", name="from_str", trait_ref="FromStr")
     inew = F.find1(self_ty="Item", name="new", trait="")
-    # the switch on the token letter: value -> block -> Token passed to Item::new
-    got = {}
-    for bi, b in enumerate(fn["blocks"]):
-        t = b["t"]
-        if t["k"] == "switch" and len(t["vals"]) >= 10 and F.types[t["ty"]]["k"] == "char":
-            for v, tgt in t["vals"]:
-                tokn = _first_item_new(F, fn, tgt, inew)
-                got[chr(v)] = tokn
-    ok = got == LETTERS
-    chk.ob(rule, "<Format as FromStr>::from_str", "letter->Token-map", ok, "switch targets vs documented table",
-           detail=None if ok else {"code": got, "documented": LETTERS})
-    # every arm hands the token's 2nd and 3rd characters to Item::new as first and second separator, in that order
-    bad = {}
-    narm = 0
-    for bi, b in enumerate(fn["blocks"]):
-        t = b["t"]
-        if t["k"] == "switch" and len(t["vals"]) >= 10 and F.types[t["ty"]]["k"] == "char":
-            for v, tgt in t["vals"]:
-                sa = _arm_separator_args(F, fn, tgt, inew)
-                narm += 1
-                if sa != (1, 2):
-                    bad[chr(v)] = sa
-    chk.ob(rule, "<Format as FromStr>::from_str", "Item::new(token,chars().nth(1),chars().nth(2))-in-every-arm", not bad and narm >= 17, "E5 operand flow per arm",
-           detail=bad or None)
-    chk.floor(rule, "token letters", len(got), 17)
+    # Format::from_str interpreted on "%<letter>xy" for every printable ASCII letter: the one item built must carry the documented
+    # token for the letter, 'x' as first and 'y' as second separator (i.e. the 2nd and 3rd characters of the piece, in that order);
+    # any other letter must be rejected.  However the letter is mapped (17 arms, a helper, a table) is not prescribed.
+    from .c10 import Reader
+    from ..sym import St as _St, Ref as _Ref, Str as _Str
+    RD = Reader(F)
+    e2 = RD.eng
+    got, seps_bad, accepted_other = {}, {}, []
+    ntried = 0
+    for code in list(range(ord("A"), ord("Z") + 1)) + list(range(ord("a"), ord("z") + 1)) + [ord("0"), ord("%"), ord("?"), ord("-")]:
+        L = chr(code)
+        e2.reset()
+        RD.install()
+        e2.hooks_by_id.pop(fn["id"], None)
+        saved_policy = e2.opaque
+        e2.opaque = lambda c_, pol=saved_policy: False if c_.get("fn_id") in (fn["id"], inew["id"]) else pol(c_)
+        try:
+            finals = e2.run(fn, args=[_Ref(val=_Str("%" + L + "xy"))], st=_St())
+        finally:
+            e2.opaque = saved_policy
+            RD.uninstall()
+        ntried += 1
+        rets = [st for st in finals if st.end == "return"]
+        if len(rets) != 1 or len(finals) != 1:
+            got[L] = "undecided(%d paths, %s)" % (len(finals), sorted({st.end for st in finals}))
+            continue
+        r = rets[0].ret
+        rn = e2.types[r.tid]["variants"][r.vi]["name"] if isinstance(r, Enum) else None
+        if rn != "Ok":
+            continue
+        fmtv = r.fs[0]
+        names = e2.types[fmtv.tid]["variants"][0]["fields"]
+        f = dict(zip(names, fmtv.fs))
+        items = f["items"]
+        n_items = e2.const_of(rets[0], f["num_items"]) if isinstance(f["num_items"], Int) else None
+        it0 = items.els[0] if isinstance(items, Arr) and items.els else None
+        it0 = rets[0].enum_ref.get(it0.name, it0) if isinstance(it0, SymEnum) else it0
+        if n_items != 1 or not (isinstance(it0, Enum) and it0.vi == 1):
+            got[L] = "accepted-without-one-item(num_items=%r)" % (n_items,)
+            continue
+        item = it0.fs[0]
+        inames = e2.types[item.tid]["variants"][0]["fields"]
+        fi = dict(zip(inames, item.fs))
+        tok = fi["token"]
+        tok = rets[0].enum_ref.get(tok.name, tok) if isinstance(tok, SymEnum) else tok
+        got[L] = e2.types[tok.tid]["variants"][tok.vi]["name"] if isinstance(tok, Enum) else repr(tok)
+
+        def ch(ov):
+            ov = rets[0].enum_ref.get(ov.name, ov) if isinstance(ov, SymEnum) else ov
+            if isinstance(ov, Enum) and ov.vi == 1 and isinstance(ov.fs[0], Int):
+                k_ = e2.const_of(rets[0], ov.fs[0])
+                return chr(k_) if k_ is not None else "?sym"
+            return None
+        sa = (ch(fi["sep_char"]), ch(fi["second_sep_char"]))
+        if sa != ("x", "y"):
+            seps_bad[L] = sa
+        if L not in LETTERS:
+            accepted_other.append(L)
+    code_map = {k: v for k, v in got.items() if k in LETTERS or not str(v).startswith("undecided")}
+    ok = {k: v for k, v in got.items() if k in LETTERS} == LETTERS and not accepted_other and not [k for k, v in got.items() if str(v).startswith("undecided")]
+    chk.ob(rule, "<Format as FromStr>::from_str", "letter->Token-map", ok, "from_str interpreted on \"%%<letter>xy\" for %d letters vs documented table" % ntried,
+           detail=None if ok else {"code": code_map, "documented": LETTERS, "accepted_undocumented": accepted_other})
+    chk.ob(rule, "<Format as FromStr>::from_str", "Item::new(token,chars().nth(1),chars().nth(2))-in-every-arm", not seps_bad and len(got) >= 17,
+           "separators of the item built from \"%<letter>xy\"", detail=seps_bad or None)
+    chk.floor(rule, "token letters", len([k for k in got if k in LETTERS]), 17)
     # Item::new decision table over (None | '?' | other) x (None | '?' | other)
     finals, args = D.run(inew)
     cases = 0
